@@ -46,6 +46,9 @@ Next == /\ l <= Len(Trace)
              [] e.ev = "get" ->
                   /\ Flag(e.res = LastMin(n, adds) /\ Len(e.res) <= n /\ e.len = Len(e.res))
                   /\ UNCHANGED <<n, adds, nret, gfloor, floor>>
+             [] e.ev = "stuck" ->         \* adders and snapshot readers had not all returned after 20 s: the queue has locked up
+                  /\ Flag(FALSE)
+                  /\ UNCHANGED <<n, adds, nret, gfloor, floor>>
              [] e.ev = "still" ->         \* an earlier snapshot read again after later additions: it has not changed
                   /\ Flag(e.now = e.was)
                   /\ UNCHANGED <<n, adds, nret, gfloor, floor>>
